@@ -174,16 +174,15 @@ class ReedMullerDecoder(BaseBlockDecoder[ReedMullerCodeEncoder]):
 
         # Process blockwise
         def decode_block(r_block):
-            batch_size = r_block.shape[0]
+            # r_block has shape (..., blocks, code_length): decode every block of every batch item
+            block_dims = r_block.shape[:-1]
+            words = r_block.reshape(-1, self.code_length)
+            batch_size = words.shape[0]
             decoded = torch.zeros(batch_size, self.code_dimension, dtype=torch.int, device=received.device)
-            errors = torch.zeros_like(r_block) if return_errors else None
+            errors = torch.zeros_like(words) if return_errors else None
 
             for i in range(batch_size):
-                # Get the current received word - ensure it's a 1D tensor
-                if r_block.dim() == 3:  # Handle the case when r_block has shape [batch, 1, code_length]
-                    r = r_block[i, 0, :]
-                else:  # Handle the case when r_block has shape [batch, code_length]
-                    r = r_block[i, :]
+                r = words[i]
 
                 # Hard decisions on the received word; they are updated as message bits are decided
                 if self.input_type == "hard":
@@ -214,7 +213,10 @@ class ReedMullerDecoder(BaseBlockDecoder[ReedMullerCodeEncoder]):
                     correct_codeword = self.encoder(u_hat.float().unsqueeze(0)).squeeze(0)
                     errors[i] = (r.to(torch.int) != correct_codeword.to(torch.int)).to(torch.int)
 
-            return (decoded, errors) if return_errors else decoded
+            decoded = decoded.reshape(*block_dims, self.code_dimension)
+            if return_errors:
+                return decoded, errors.reshape(*block_dims, self.code_length)
+            return decoded
 
         # Apply decoding blockwise
         return apply_blockwise(received, self.code_length, decode_block)
